@@ -407,7 +407,11 @@ func (s *LinearState) findRules(ctx *Context, event Map) (map[string]Map, error)
 				// results as already match-processed.
 				bss, err := Matches(ctx, pattern, event)
 				if err != nil {
-					return nil, err
+					// A rule with a 'when' that can't be matched
+					// must not break event processing for every
+					// other rule.
+					Log(ERROR, ctx, "LinearState.FindRules", "name", s.Name, "id", id, "error", err)
+					continue
 				}
 				if 0 < len(bss) {
 					acc[id] = r
